@@ -31,7 +31,6 @@ import logging
 import os
 import queue as pyqueue
 import re
-import sys
 
 from rtc.gen import make_rgfa, revcomp, parse_path, Graph, Seg
 
@@ -210,7 +209,6 @@ TAG_POOL = ["NM:i:%d", "AS:f:%d.5", "dv:f:0.0%d", "id:f:0.9%d", "tp:A:P", "zz:Z:
 
 def mutate(rng, s, n_edits):
     s = list(s)
-    script = []
     for _ in range(n_edits):
         kind = rng.choice("SID")
         if kind == "S" and s:
@@ -224,7 +222,6 @@ def mutate(rng, s, n_edits):
             p = rng.randrange(len(s))
             ln = min(rng.choice([1, 1, 2, 5]), len(s) - 1)
             del s[p:p + ln]
-        script.append(kind)
     return "".join(s)
 
 
@@ -347,9 +344,9 @@ def make_record(rng, g, walk, idx, read_name, reads, kind=None, max_edits=3, lon
         cg = "%d=" % (len(ref) + 1)
     else:
         cg = None
-    err, st = (None, None)
+    st = None
     if cg is not None:
-        err, st = replay_cigar(cg, core, ref)
+        _err, st = replay_cigar(cg, core, ref)
     matches = st["eq"] if st else rng.randint(0, len(ref))
     block = st["total"] if st else len(ref)
     if rng.random() < 0.3:  # columns 10/11 of the INPUT may be anything (e.g. stale)
